@@ -218,6 +218,16 @@ func genContentCases(tier string, emit func(op string, fields ...string)) {
 		emit("COMPILE2", hexs(layout(a, false)), hexs(layout(b, false)), "-")
 		emit("COMPILE", hexs(layout(a, false)), "-")
 	}
+	// quoting-sensitive name positions with adversarial names: table, as-name, join operands read back
+	for _, id := range nastyIdents {
+		for _, tpl := range []string{"T | as X | join (U) on k", "X | join (U) on k", "T | join (X) on k", "T | join (U | as X) on k | count",
+			"T | as X | where a > 0 | join kind=leftouter (X) on k", "T | as X | join kind=inner (U) on k | as X2 | count", "X | count", "T | as X"} {
+			a := strings.ReplaceAll(tpl, "X", id)
+			b := strings.ReplaceAll(tpl, "X", pick(nastyIdents))
+			emit("COMPILE", hexs(a), "-")
+			emit("COMPILE2", hexs(a), hexs(b), "-")
+		}
+	}
 	for _, s := range []string{
 		"T | render linechart with (title=\"\")", "T | render linechart with (title='', sub=\"\")", "T | render `` with (t=``)", "T | render `x' , (select 1) as y, '`", "T | render t with (`a\" b` = 'v\\'w')", "T | where a == 'a\\\\'", "`a\\` | count",
 		"T | where x > -0XFFFFFFFFFFFFFFFF and y == 'keep'", "T | extend d = a - -0x8000000000000000", "T | take 0x8000000000000000", "T | where a[0xffffffffffffffff] == -0x8000000000000001",
